@@ -126,6 +126,13 @@ def c_key(k):
     return '(KPos %s)' % coqio.cZ(k[1]) if k[0] == 'KPos' else '(KName %s)' % coqio.cnat(k[1])
 
 
+def c_kop(op):
+    """operations of Proofs/ContainerSortKey.v: the keyed sort, or a plain operation of Model/Container.v"""
+    if op[0] == 'SSortKey':
+        return '(SortKey %s %s)' % (coqio.cZ(op[1]), coqio.cbool(op[2]))
+    return '(Plain %s)' % c_op(op)
+
+
 def c_op(op):
     t, a = op[0], op[1:]
     if t in ('SSetItem',):
@@ -188,7 +195,7 @@ def der_cons(tagoctet, chunks):
     return bytes([tagoctet]) + der_len(len(body)) + body
 
 
-VALUES = [0, 1, -1, 2, 3, 5, 7, 9, 127, 128, 255, 256, -128, -129, 300, 65535, -32768, 2 ** 31, -2 ** 31 - 1]
+VALUES = [0, 1, -1, 2, 3, 5, 7, 9, 11, 21, 41, 12, 22, 127, 128, 255, 256, -128, -129, 300, 65535, -32768, 2 ** 31, -2 ** 31 - 1]
 
 
 def gen_z(rng):
@@ -241,6 +248,9 @@ class SeqOfKind(object):
             obj.sort(reverse=a[0]); return obj, RET
         if t == 'SReverse':
             obj.reverse(); return obj, RET
+        if t == 'SSortKey':
+            m = a[0]
+            obj.sort(key=lambda x: int(x) % m, reverse=a[1]); return obj, RET
         if t == 'SClear':
             obj.clear(); return obj, RET
         if t == 'SReset':
@@ -366,6 +376,9 @@ class SeqOfKind(object):
             return ('ill',) if P is None else ('wf', sorted(L, reverse=a[0]), RET)
         if t == 'SReverse':
             return ('ill',) if P is None else ('wf', list(reversed(L)), RET)
+        if t == 'SSortKey':
+            # Python's list.sort is stable in both directions: ties keep their order, also with reverse=True
+            return ('ill',) if P is None else ('wf', sorted(L, key=lambda x: x % a[0], reverse=a[1]), RET)
         if t == 'SClear':
             return ('wf', [], RET)
         if t == 'SReset':
@@ -491,8 +504,10 @@ class SeqOfKind(object):
                 if vs and rng.random() < 0.06:
                     vs[rng.choice([0, len(vs) - 1])] = ('PBad',)
                 return ('SSetSlice', lo, hi, vs)
-            if c < 0.76:
+            if c < 0.72:
                 return ('SSort', rng.random() < 0.3)
+            if c < 0.79:
+                return ('SSortKey', rng.choice([10, 10, 3, 2, 7]), rng.random() < 0.6)
             if c < 0.84:
                 return ('SReverse',)
             if c < 0.89:
@@ -533,13 +548,13 @@ class SeqOfKind(object):
         return ('SEncode',)
 
     def coq_check(self, ops, trace):
-        return 'sof_check %s %s %s %s' % (coqio.cbool(self.ct), coqio.cbool(self.isset),
-                                          coqio.clist([c_op(o) for o in ops]),
+        return 'sofk_check %s %s %s %s' % (coqio.cbool(self.ct), coqio.cbool(self.isset),
+                                          coqio.clist([c_kop(o) for o in ops]),
                                           coqio.clist(['(%s, %s)' % (c_out(o), self.c_snap(s)) for o, s in trace]))
 
     def coq_first_bad(self, ops, trace):
-        return 'sof_first_bad %s %s None %s %s 0%%nat' % (
-            coqio.cbool(self.ct), coqio.cbool(self.isset), coqio.clist([c_op(o) for o in ops]),
+        return 'sofk_first_bad %s %s None %s %s 0%%nat' % (
+            coqio.cbool(self.ct), coqio.cbool(self.isset), coqio.clist([c_kop(o) for o in ops]),
             coqio.clist(['(%s, %s)' % (c_out(o), self.c_snap(s)) for o, s in trace]))
 
     def c_proto(self, P):
@@ -547,11 +562,11 @@ class SeqOfKind(object):
 
     def coq_spec_check(self, ops, ptrace):
         tr = coqio.clist(['None' if e is None else '(Some (%s, %s))' % (self.c_proto(e[0]), c_out(e[1])) for e in ptrace])
-        return 'l_spec_check %s %s None %s %s' % (coqio.cbool(self.ct), coqio.cbool(self.isset),
-                                                 coqio.clist([c_op(o) for o in ops]), tr)
+        return 'lk_spec_check %s %s None %s %s' % (coqio.cbool(self.ct), coqio.cbool(self.isset),
+                                                  coqio.clist([c_kop(o) for o in ops]), tr)
 
     def coq_run(self, ops):
-        return 'sof_run %s %s None %s' % (coqio.cbool(self.ct), coqio.cbool(self.isset), coqio.clist([c_op(o) for o in ops]))
+        return 'sofk_run %s %s None %s' % (coqio.cbool(self.ct), coqio.cbool(self.isset), coqio.clist([c_kop(o) for o in ops]))
 
 
 # ---------------------------------------------------------------------------------------------
